@@ -246,14 +246,14 @@ def psaddCase (K1 : Nat) (L1 : Layout) (K2 : Nat) (L2 : Layout) : Case := do
 def psaddValid (L1 L2 : Layout) : Prop := L1.dl = L2.dl ∧ L1.dc = L2.dc ∧ L1.quat = L2.quat
 
 /-! #### resampling -/
-def rsCase (N : Nat) (I : Layout) (rN : Nat) (R : Layout) (plen : Nat) : Case := do
-  resample I N R rN plen
-  pure (some [toString rN, (Shape.mk R.dim rN).str, toString (plen - N)])
+def rsCase (N : Nat) (I : Layout) (rN : Nat) (R : Layout) (plen : Nat) (gt : Nat → Nat → Bool) : Case := do
+  resample I N R rN plen gt
+  pure (some [toString rN, (Shape.mk R.dim rN).str, toString (plen - N), "0"])
 def rsValid (N : Nat) (I : Layout) (rN : Nat) (R : Layout) (plen : Nat) : Prop :=
   1 ≤ N ∧ I.dn = 0 ∧ R = I ∧ rN = N ∧ plen = N
 
-def rwpCase (N rnum rden : Nat) (I : Layout) (nx ny plen : Nat) : Case := do
-  let r ← resampleWithPrior I N rnum rden nx ny plen
+def rwpCase (N rnum rden : Nat) (I : Layout) (nx ny plen : Nat) (gt : Nat → Nat → Bool) : Case := do
+  let r ← resampleWithPrior I N rnum rden nx ny plen gt
   pure (some [toString r.K, (Shape.mk r.L.dim r.K).str, (r.L.meanS r.K).str, (r.L.covS r.K).str, toString r.K,
               toString (plen - r.written), toString r.prior, "0"])
 /-- at least one particle, prior ratio in [0, 1), one parent slot per particle -/
